@@ -74,7 +74,8 @@ ASSUMPTIONS = [
     "once the true residual is <= 8 x the derived slack the run is numerically converged: monotone energy, Krylov "
     "optimality and 'no ERROR on HPD input' are not demanded of later iterations (they are steered by round-off)",
     "a run without iteration limit that has not stopped after 3000 iterations is a violation only if the tolerance "
-    "is >= 1e4 x the attainable-accuracy floor cm |A|_F max|x_k| (otherwise the recipe is discarded)",
+    "is >= 1e4 x the attainable-accuracy floor (cm |A|_F max|x_k| for the residual, the value slack for energy "
+    "criteria); otherwise the recipe is discarded (observed only for b = None, E_min = 0, relative energy criterion)",
 ]
 
 U = 2.0 ** -53
@@ -474,9 +475,15 @@ def attainable(sysm, ic, rows):
         if ic.get("rel") is not None:
             tols.append(2.0 ** -ic["rel"] * rows[0]["gn"])
         return bool(tols) and max(tols) >= 1e4 * floor
+    if sysm.b is None and k in ("ginf", "de"):
+        return False    # criterion relative to |E| with E_min = 0: no attainable floor
     if k == "ginf":
         return 2.0 ** -ic["tol"] * abs(rows[-1]["E"]) >= 1e4 * floor
-    return True     # energy differences vanish once the iteration stagnates
+    # energy differences vanish once the iteration stagnates, unless the tolerance is below the accuracy of
+    # the energy itself (relative criterion with E_min = 0, i.e. b = None)
+    sv = max(r["SV"] for r in rows[-10:])
+    t = 2.0 ** -ic["tol"]
+    return (t if k == "ade" else t * abs(rows[-1]["E"])) >= 1e4 * sv
 
 
 def check_cg(rec):
@@ -931,6 +938,9 @@ def _cond_exp(sysrec):
 def cg_recipes(draw, tier):
     s = draw(system(40, 20, allow_bnone=True))
     s["ic"] = draw(controller(s["n"], _cond_exp(s)))
+    if s["b"] is None and s["ic"]["limit"] is None and s["ic"]["kind"] in ("de", "ginf"):
+        # E_min = 0: a criterion relative to |E| has no attainable floor; keep the run finite by construction
+        s["ic"]["limit"] = 3 * s["n"] + 20
     s["nreset"] = draw(st.one_of(st.integers(1, 6), st.integers(1, 25), st.just(20)))
     return s
 
